@@ -48,6 +48,14 @@ class RuleLog:
         self.skipped = None
 
 
+class Defect(Exception):
+    """raised by helper code that folds or inspects program objects when the object itself is malformed in a way that makes the
+    program die (a missing attribute every caller reads): reported as a violation at `where`, not as an analysis failure"""
+    def __init__(self, where, message, construct):
+        super().__init__(message)
+        self.where, self.message, self.construct = where, message, construct
+
+
 class Checker:
     """Collects what one run of one property's rules analysed and concluded."""
 
@@ -74,6 +82,9 @@ class Checker:
         log = self.rule(rule, title, floor)
         try:
             fn(self, *args, **kwargs)
+        except Defect as d:
+            self.current = log
+            self.violation(d.where, d.message, construct=d.construct)
         except Unknown as ex:
             if os.environ.get("SA_DEBUG"):
                 import traceback
@@ -128,7 +139,8 @@ class Checker:
 
     # exceptions that are never part of the assembler's own error discipline: a path of the real code that ends in one
     # (on inputs the rule built from well-formed objects) is the program crashing, not the analysis failing
-    CRASHES = ("AttributeError", "TypeError", "KeyError", "IndexError", "NameError", "UnboundLocalError", "RecursionError", "ZeroDivisionError")
+    CRASHES = ("AttributeError", "TypeError", "KeyError", "IndexError", "NameError", "UnboundLocalError", "RecursionError", "ZeroDivisionError",
+               "struct.error", "ValueError", "OverflowError", "AssertionError", "UnicodeEncodeError", "UnicodeDecodeError", "LookupError", "StopIteration")
 
     def incomplete(self, where, what, paths):
         """an abstract run of real code did not end in exactly one normal return: internal exception -> violation, else unknown"""
@@ -197,7 +209,7 @@ def finish(checker, seed=0, level="other", explanation="", assumptions=(), trust
             rule_bad += 1
         if log.unknowns:
             unknowns += [(rule, u) for u in log.unknowns]
-        if log.instances < log.floor and not log.unknowns:
+        if log.instances < log.floor and not log.unknowns and not rule_bad:     # a rule cut short by its own finding has not passed vacuously
             floors_missed.append((rule, log.instances, log.floor))
         ok = not log.findings and not log.unknowns and log.instances >= log.floor
         discharged += max(len(log.distinct), 1) - rule_bad if ok or log.findings else 0
